@@ -10,7 +10,10 @@
 #include <node/kernel_notifications.h>
 #include <undo.h>
 #include <streams.h>
+#include <crypto/common.h>
 #include <crypto/sha256.h>
+#include <consensus/consensus.h>
+#include <hash.h>
 #include <util/fs.h>
 #include <cstdio>
 #include <filesystem>
@@ -69,7 +72,19 @@ const BlkData& GetBlock(int id, const std::string& cls)
     pay.vin[0].scriptSig = CScript() << std::vector<unsigned char>(71, 0x30) << std::vector<unsigned char>(33, 0x02);
     pay.vout.resize(2); pay.vout[0].nValue = 1000 + id; pay.vout[0].scriptPubKey = CScript() << OP_DUP << OP_HASH160 << std::vector<unsigned char>(20, id) << OP_EQUALVERIFY << OP_CHECKSIG;
     pay.vout[1].nValue = 7; pay.vout[1].scriptPubKey = CScript() << OP_TRUE;
-    auto assemble = [&] { b.vtx.clear(); b.vtx.push_back(MakeTransactionRef(cb)); b.vtx.push_back(MakeTransactionRef(pay)); };
+    // real segwit blocks: the payment carries a witness, the coinbase the reserved value and the BIP141 commitment output, so that
+    // the stored (witness) serialization is longer than the stripped one
+    pay.vin[0].scriptWitness.stack = {std::vector<unsigned char>(72, 0x30), std::vector<unsigned char>(33, 0x03)};
+    cb.vin[0].scriptWitness.stack = {std::vector<unsigned char>(32, 0x00)};
+    cb.vout.resize(2); cb.vout[1].nValue = 0; cb.vout[1].scriptPubKey.resize(38);
+    auto assemble = [&] {
+        b.vtx.clear(); b.vtx.push_back(MakeTransactionRef(cb)); b.vtx.push_back(MakeTransactionRef(pay));
+        uint256 commit = BlockWitnessMerkleRoot(b);
+        CHash256().Write(commit).Write(cb.vin[0].scriptWitness.stack[0]).Finalize(commit);
+        CScript& c = cb.vout[1].scriptPubKey;
+        c[0] = OP_RETURN; c[1] = 0x24; c[2] = 0xaa; c[3] = 0x21; c[4] = 0xa9; c[5] = 0xed; memcpy(&c[6], commit.begin(), 32);
+        b.vtx[0] = MakeTransactionRef(cb);
+    };
     assemble();
     if (target) {
         for (int iter = 0; iter < 5; ++iter) {
@@ -84,6 +99,7 @@ const BlkData& GetBlock(int id, const std::string& cls)
     }
     b.hashMerkleRoot = BlockMerkleRoot(b);
     while (!CheckProofOfWork(b.GetHash(), b.nBits, Params().GetConsensus())) ++b.nNonce;
+    { DataStream stripped; stripped << TX_NO_WITNESS(b); if (stripped.size() >= SerBlock(b).size()) throw std::runtime_error("block carries no witness data"); }
     BlkData d{b, SerBlock(b), b.GetHash()};
     return cache.emplace(key, std::move(d)).first->second;
 }
@@ -206,6 +222,18 @@ struct World {
         fs::create_directories(dir);
         notifications = std::make_unique<KernelNotifications>(Assert(g_setup->m_node.shutdown_request), g_setup->m_node.exit_status, *Assert(g_setup->m_node.warnings));
         notifications->m_shutdown_on_fatal_error = false;
+        const UniValue& conf = init["conf"];
+        for (const auto& b : conf["cls"].getKeys()) {
+            blocks.push_back(b);
+            cls[b] = conf["cls"][b].get_str();
+            height[b] = conf["h"][b].getInt<int>();
+        }
+        NewManager();
+    }
+    // a BlockManager with an empty block tree on the (possibly non-empty) blocks directory, and header-only index entries
+    void NewManager()
+    {
+        bm.reset();
         BlockManager::Options opts{
             .chainparams = Params(),
             .fast_prune = true,
@@ -214,12 +242,8 @@ struct World {
             .block_tree_db_params = DBParams{.path = dir / "index", .cache_bytes = 0, .memory_only = true},
         };
         bm = std::make_unique<BlockManager>(*Assert(g_setup->m_node.shutdown_signal), opts);
-        const UniValue& conf = init["conf"];
         LOCK(::cs_main);
-        for (const auto& b : conf["cls"].getKeys()) {
-            blocks.push_back(b);
-            cls[b] = conf["cls"][b].get_str();
-            height[b] = conf["h"][b].getInt<int>();
+        for (const auto& b : blocks) {
             const int id = BlkNum(b);
             const BlkData& d = GetBlock(id, cls[b]);
             CBlockIndex* parent = bm->InsertBlockIndex(ParentHash(id));
@@ -229,6 +253,47 @@ struct World {
             pi->nVersion = d.block.nVersion; pi->hashMerkleRoot = d.block.hashMerkleRoot; pi->nTime = d.block.nTime; pi->nBits = d.block.nBits; pi->nNonce = d.block.nNonce;
             index[b] = pi;
         }
+    }
+    // -reindex as ImportBlocks / LoadExternalBlockFile do it: files blk00000.dat, blk00001.dat, ... until one is missing; inside a
+    // file search the message start byte by byte, read the size, deserialize the block, record it with UpdateBlockInfo (instead
+    // of WriteBlock) at the position found and continue behind it. Returns the number of blocks found.
+    int Reindex()
+    {
+        NewManager();
+        int found = 0;
+        const auto magic = Params().MessageStart();
+        for (int n = 0; fs::exists(BlkPath(n)); ++n) {
+            const int64_t len = RawFile::Len(BlkPath(n));
+            std::vector<unsigned char> buf(len);
+            {
+                AutoFile f{bm->OpenBlockFile(FlatFilePos(n, 0), /*fReadOnly=*/true)};
+                if (f.IsNull()) break;
+                if (len > 0) f.read(MakeWritableByteSpan(buf));
+                (void)f.fclose();
+            }
+            int64_t o = 0;
+            while (o + 8 <= len) {
+                if (memcmp(&buf[o], magic.data(), 4) != 0) { ++o; continue; }
+                const uint32_t size = ReadLE32(&buf[o + 4]);
+                if (size < 80 || size > MAX_BLOCK_SERIALIZED_SIZE || o + 8 + (int64_t)size > len) { ++o; continue; }
+                CBlock blk;
+                try { SpanReader{std::span{buf}.subspan(o + 8, size)} >> TX_WITH_WITNESS(blk); } catch (const std::exception&) { ++o; continue; }
+                const uint256 hash = blk.GetHash();
+                std::string name;
+                for (const auto& b : blocks) if (Blk(b).hash == hash) name = b;
+                if (name.empty()) { ++o; continue; }
+                {
+                    LOCK(::cs_main);
+                    const FlatFilePos pos(n, (uint32_t)(o + 8));
+                    bm->UpdateBlockInfo(blk, height.at(name), pos);
+                    CBlockIndex* pi = index.at(name);
+                    pi->nFile = pos.nFile; pi->nDataPos = pos.nPos; pi->nUndoPos = 0; pi->nStatus |= BLOCK_HAVE_DATA;
+                }
+                ++found;
+                o += 8 + size;
+            }
+        }
+        return found;
     }
     ~World() { bm.reset(); std::error_code ec; std::filesystem::remove_all(dir, ec); }
 
@@ -261,6 +326,10 @@ struct World {
             LOCK(::cs_main);
             const bool ok = ((*bm).*Get(FlushTag{}))(0);
             return UniValue{ok ? "true" : "false"};
+        }
+        if (op == "reindex") {
+            if (saved) throw std::runtime_error("reindex with an outstanding fault");
+            return UniValue{Reindex()};
         }
         if (op == "prune") {
             const int n = a[1].getInt<int>();
